@@ -31,7 +31,7 @@ Proof. induction v as [|x v IH]; [reflexivity|]. simpl length. rewrite bsum_shif
 Lemma sq_R (x : R) : sq x = x * x.
 Proof. reflexivity. Qed.
 Lemma sqdiff_ge0 : forall y p : vec, Forall (fun x => 0 <= x) (sqdiff y p).
-Proof. induction y as [|a y IH]; intros [|b p]; simpl; constructor; [unfold sq; numR; nra | apply IH]. Qed.
+Proof. unfold sqdiff. induction y as [|a y IH]; intros [|b p]; simpl; try apply Forall_nil. apply Forall_cons; [exact (Rle_0_sqr _) | apply IH]. Qed.
 Lemma sqdiff_length : forall y p : vec, length y = length p -> length (sqdiff y p) = length y.
 Proof. intros; unfold sqdiff; apply length_vzip; assumption. Qed.
 
@@ -62,16 +62,16 @@ Qed.
 Definition rmseR (y p : vec) : R := sqrt (mse1 y p).
 Definition nrmseR (k : normk) (y p : vec) : R := rmseR y p / norm1 k y.
 
-Lemma rmse_sq (y p : vec) : rmseR y p * rmseR y p = mse1 y p /\ 0 <= rmseR y p.
+Lemma rmseR_sq (y p : vec) : rmseR y p * rmseR y p = mse1 y p /\ 0 <= rmseR y p.
 Proof. split; [apply sqrt_sqrt, mse1_ge0 | apply sqrt_pos]. Qed.
-Lemma nrmse_sq (k : normk) (y p : vec) : norm1 k y <> 0 ->
+Lemma nrmseR_sq (k : normk) (y p : vec) : norm1 k y <> 0 ->
   nrmseR k y p * nrmseR k y p = mse1 y p / (norm1 k y * norm1 k y).
-Proof. intros Hn. unfold nrmseR. destruct (rmse_sq y p) as [E _]. rewrite <- E. field. assumption. Qed.
+Proof. intros Hn. unfold nrmseR. destruct (rmseR_sq y p) as [E _]. rewrite <- E. field. assumption. Qed.
 
 (* ---------------------------------------------------------------- affine maps *)
 Lemma sqdiff_aff a b : forall y p : vec,
   sqdiff (map (aff a b) y) (map (aff a b) p) = map (fun e => (a * a) * e) (sqdiff y p).
-Proof. induction y as [|u y IH]; intros [|v p]; simpl; try reflexivity. f_equal; [unfold sq, aff; numR; ring | apply IH]. Qed.
+Proof. unfold sqdiff. induction y as [|u y IH]; intros [|v p]; simpl; try reflexivity. f_equal; [unfold sq, aff; numR; ring | apply IH]. Qed.
 
 Lemma mean_aff a b (v : vec) : v <> [] -> mean (map (aff a b) v) = a * mean v + b.
 Proof.
@@ -133,7 +133,7 @@ Proof. intros Ha Hv. unfold ptp. rewrite vmax_aff, vmin_aff by assumption. unfol
 
 (* ---------------------------------------------------------------- R^2 *)
 Lemma sqdiff_self (y : vec) : vsum (sqdiff y y) = 0.
-Proof. induction y as [|a y IH]; simpl; numR; [reflexivity|]. unfold sqdiff in IH. rewrite IH. unfold sq; numR; ring. Qed.
+Proof. unfold sqdiff. induction y as [|a y IH]; [reflexivity|]. cbn [vzip]. rewrite vsum_cons, IH. unfold sq; numR; ring. Qed.
 Lemma rsquare1_perfect (y : vec) : sstot y <> 0 -> rsquare1 y y = 1.
 Proof. intros HD. unfold rsquare1. rewrite sqdiff_self. numR. field. assumption. Qed.
 
@@ -168,4 +168,293 @@ Lemma nrmse_mean_aff a b (y p : vec) : 0 < a -> y <> [] ->
   nrmseR Mean (map (aff a b) y) (map (aff a b) p) = a * rmseR y p / (a * mean y + b).
 Proof.
   intros Ha Hy. unfold nrmseR, norm1. rewrite rmseR_aff, mean_aff, Rabs_right by (assumption || lra). reflexivity.
+Qed.
+
+(* ---------------------------------------------------------------- _check_arrays *)
+Lemma lnat_eqb_eq : forall a b, lnat_eqb a b = true <-> a = b.
+Proof.
+  induction a as [|x a IH]; intros [|y b]; simpl; split; intros E; try congruence; try discriminate.
+  - apply andb_true_iff in E as [H1 H2]. apply Nat.eqb_eq in H1. apply IH in H2. congruence.
+  - inversion E; subst. rewrite Nat.eqb_refl. apply IH. reflexivity.
+Qed.
+Lemma check_mismatch (y p : arr R) : shape y <> shape p -> check_arrays y p = None.
+Proof.
+  intros Hs. unfold check_arrays. destruct (lnat_eqb (shape y) (shape p)) eqn:E; [|reflexivity].
+  apply lnat_eqb_eq in E; contradiction.
+Qed.
+Lemma check_match (y p : arr R) : shape y = shape p -> check_arrays y p = Some (y, p).
+Proof. intros Hs. unfold check_arrays. replace (lnat_eqb (shape y) (shape p)) with true; [reflexivity|]. symmetry; apply lnat_eqb_eq; assumption. Qed.
+Lemma check_iff (y p : arr R) : check_arrays y p = None <-> shape y <> shape p.
+Proof.
+  split; [|apply check_mismatch]. intros E Hs. rewrite check_match in E by assumption. discriminate.
+Qed.
+
+Lemma reduce_mismatch {T} dw (y p : arr R) (f1 : vec -> vec -> T) f0 : shape y <> shape p -> reduce dw y p f1 f0 = None.
+Proof. intros Hs. unfold reduce. rewrite check_mismatch by assumption. reflexivity. Qed.
+
+Lemma mismatch_rejected (y p : arr R) : shape y <> shape p -> forall dw,
+  mse dw y p = None /\ rmse_sq dw y p = None /\ rsquare dw y p = None /\
+  (forall k, nrmse_parts dw k y p = None) /\ (forall nv, nrmse_parts_nv dw nv y p = None).
+Proof.
+  intros Hs dw. unfold rmse_sq, mse, rsquare, nrmse_parts, nrmse_parts_nv.
+  repeat split; intros; rewrite reduce_mismatch by assumption; reflexivity.
+Qed.
+
+Lemma global_metrics (y p : arr R) : shape y = shape p ->
+  mse false y p = Some (RS (mse1 (flat y) (flat p))) /\
+  rsquare false y p = Some (RS (rsquare1 (flat y) (flat p))) /\
+  (forall k, nrmse_parts false k y p = Some (inl (mse1 (flat y) (flat p), norm1 k (flat y)))).
+Proof.
+  intros Hs. unfold mse, rsquare, nrmse_parts, reduce. rewrite check_match by assumption. repeat split.
+Qed.
+(* a 1-D array with dimensionwise=True: axis 0 is the only axis, the result is the same scalar *)
+Lemma dimwise_1d (y p : vec) : length y = length p ->
+  mse true (A1 y) (A1 p) = Some (RS (mse1 y p)) /\ rsquare true (A1 y) (A1 p) = Some (RS (rsquare1 y p)).
+Proof.
+  intros Hl. unfold mse, rsquare, reduce. rewrite check_match by (simpl; congruence). split; reflexivity.
+Qed.
+
+(* ---------------------------------------------------------------- axis-0 reductions are column-wise *)
+Definition rect (c : nat) (m : mat) : Prop := Forall (fun r => length r = c) m.
+
+Lemma nth_map_seq {A} (f : nat -> A) c j d : (j < c)%nat -> nth j (map f (seq 0 c)) d = f j.
+Proof.
+  intros Hj. rewrite (nth_indep _ d (f 0%nat)) by (rewrite map_length, seq_length; assumption).
+  rewrite map_nth. rewrite seq_nth by assumption. reflexivity.
+Qed.
+Lemma list_eq_seq (l : vec) c : length l = c -> l = map (fun j => nth j l 0) (seq 0 c).
+Proof.
+  intros Hl. apply nth_ext with (d:=0) (d':=0).
+  - rewrite map_length, seq_length; assumption.
+  - intros j Hj. rewrite nth_map_seq by lia. reflexivity.
+Qed.
+Lemma vzip_map_map {A} (g : R -> R -> R) (f1 f2 : A -> R) (l : list A) :
+  vzip g (map f1 l) (map f2 l) = map (fun j => g (f1 j) (f2 j)) l.
+Proof. induction l; simpl; [reflexivity | f_equal; assumption]. Qed.
+Lemma col_length j (m : mat) : length (col j m) = length m.
+Proof. apply map_length. Qed.
+Lemma sum0_cons c r (m : mat) : sum0 c (r :: m) = vzip Rplus r (sum0 c m).
+Proof. reflexivity. Qed.
+
+Lemma sum0_length c m : rect c m -> length (sum0 c m) = c.
+Proof.
+  induction 1 as [|r m Hr Hm IH]; [apply repeat_length|].
+  rewrite sum0_cons, length_vzip; [assumption | lia].
+Qed.
+Lemma sum0_nth c m j : rect c m -> (j < c)%nat -> nth j (sum0 c m) 0 = vsum (col j m).
+Proof.
+  induction 1 as [|r m Hr Hm IH]; intros Hj.
+  - unfold sum0; simpl. unfold vzeros. apply nth_repeat.
+  - rewrite sum0_cons, nth_vzip by (try rewrite sum0_length; auto; lia). rewrite IH by assumption. reflexivity.
+Qed.
+Lemma sum0_cols c m : rect c m -> sum0 c m = map (fun j => vsum (col j m)) (seq 0 c).
+Proof.
+  intros Hm. etransitivity; [apply (list_eq_seq _ c), sum0_length; assumption|].
+  apply map_ext_in; intros j Hj. apply in_seq in Hj. apply sum0_nth; [assumption | lia].
+Qed.
+Lemma mean0_cols c m : rect c m -> mean0 c m = map (fun j => mean (col j m)) (seq 0 c).
+Proof.
+  intros Hm. unfold mean0. rewrite sum0_cols by assumption. rewrite map_map. apply map_ext; intros j.
+  unfold mean. rewrite col_length. reflexivity.
+Qed.
+Lemma mean0_nth c m j : rect c m -> (j < c)%nat -> nth j (mean0 c m) 0 = mean (col j m).
+Proof. intros Hm Hj. rewrite mean0_cols by assumption. exact (nth_map_seq (fun j => mean (col j m)) c j 0 Hj). Qed.
+Lemma mean0_length c m : rect c m -> length (mean0 c m) = c.
+Proof. intros Hm. unfold mean0. rewrite map_length. apply sum0_length; assumption. Qed.
+
+Lemma msqdiff_rect c : forall y p, rect c y -> rect c p -> rect c (msqdiff y p).
+Proof.
+  unfold msqdiff. induction y as [|r y IH]; intros [|s p] Hy Hp; cbn [combine map]; try apply Forall_nil.
+  inversion Hy; inversion Hp; subst. apply Forall_cons; [|apply IH; assumption].
+  cbn [fst snd]. rewrite sqdiff_length; congruence.
+Qed.
+Lemma msqdiff_col c j : forall y p, rect c y -> rect c p -> (j < c)%nat ->
+  col j (msqdiff y p) = sqdiff (col j y) (col j p).
+Proof.
+  unfold msqdiff, col. induction y as [|r y IH]; intros [|s p] Hy Hp Hj; cbn [combine map]; try reflexivity.
+  inversion Hy; inversion Hp; subst. cbn [fst snd].
+  change (sqdiff (nth j r n0 :: ?a) (nth j s n0 :: ?b)) with (sq (nth j r 0 - nth j s 0) :: sqdiff a b).
+  f_equal; [|apply IH; assumption].
+  unfold sqdiff. rewrite nth_vzip by lia. reflexivity.
+Qed.
+Lemma mse0_cols c y p : rect c y -> rect c p ->
+  mse0 c y p = map (fun j => mse1 (col j y) (col j p)) (seq 0 c).
+Proof.
+  intros Hy Hp. unfold mse0. rewrite mean0_cols by (apply msqdiff_rect; assumption).
+  apply map_ext_in; intros j Hj. apply in_seq in Hj. unfold mse1. rewrite (msqdiff_col c) by (auto; lia). reflexivity.
+Qed.
+
+Lemma subrow_rect c m mu : rect c m -> length mu = c -> rect c (subrow m mu).
+Proof.
+  intros Hm Hmu. unfold subrow. induction Hm as [|r m Hr Hm IH]; simpl; [apply Forall_nil|].
+  apply Forall_cons; [|assumption]. unfold vsub. rewrite length_vzip; congruence.
+Qed.
+Lemma subrow_col c j m mu : rect c m -> length mu = c -> (j < c)%nat ->
+  col j (subrow m mu) = map (fun x => x - nth j mu 0) (col j m).
+Proof.
+  intros Hm Hmu Hj. unfold subrow, col. rewrite !map_map. apply map_ext_in; intros r Hr.
+  unfold rect in Hm. rewrite Forall_forall in Hm. specialize (Hm r Hr).
+  unfold vsub. rewrite nth_vzip by lia. reflexivity.
+Qed.
+Lemma msq_rect c m : rect c m -> rect c (msq m).
+Proof. intros Hm. unfold msq. induction Hm; simpl; [apply Forall_nil|]. apply Forall_cons; [rewrite map_length|]; assumption. Qed.
+Lemma msq_col c j m : rect c m -> (j < c)%nat -> col j (msq m) = map sq (col j m).
+Proof.
+  intros Hm Hj. unfold msq, col. rewrite !map_map. apply map_ext_in; intros r Hr.
+  unfold rect in Hm. rewrite Forall_forall in Hm. specialize (Hm r Hr).
+  apply nth_map_R. lia.
+Qed.
+Lemma centered_rect c m : rect c m -> rect c (msq (subrow m (mean0 c m))).
+Proof. intros Hm. apply msq_rect, subrow_rect; [assumption | apply mean0_length; assumption]. Qed.
+Lemma centered_col c j m : rect c m -> (j < c)%nat ->
+  col j (msq (subrow m (mean0 c m))) = map sq (center (col j m)).
+Proof.
+  intros Hm Hj. rewrite (msq_col c) by (try apply subrow_rect; try apply mean0_length; assumption).
+  rewrite (subrow_col c) by (try apply mean0_length; assumption). rewrite mean0_nth by assumption. reflexivity.
+Qed.
+Lemma rsquare0_cols c y p : rect c y -> rect c p ->
+  rsquare0 c y p = map (fun j => rsquare1 (col j y) (col j p)) (seq 0 c).
+Proof.
+  intros Hy Hp. unfold rsquare0. rewrite !sum0_cols by (try apply msqdiff_rect; try apply centered_rect; assumption).
+  rewrite vzip_map_map. apply map_ext_in; intros j Hj. apply in_seq in Hj.
+  rewrite (msqdiff_col c), centered_col by (auto; lia). reflexivity.
+Qed.
+Lemma var0_cols c m : rect c m -> var0 c m = map (fun j => var1 (col j m)) (seq 0 c).
+Proof.
+  intros Hm. unfold var0. rewrite mean0_cols by (apply centered_rect; assumption).
+  apply map_ext_in; intros j Hj. apply in_seq in Hj. rewrite centered_col by (auto; lia). reflexivity.
+Qed.
+
+Lemma fold_ext_nth c (g : R -> R -> R) : forall (m : mat) (r : vec) j, length r = c -> rect c m -> (j < c)%nat ->
+  length (fold_right (vzip g) r m) = c /\
+  nth j (fold_right (vzip g) r m) 0 = fold_right g (nth j r 0) (col j m).
+Proof.
+  induction m as [|s m IH]; intros r j Hr Hm Hj.
+  - split; [assumption | reflexivity].
+  - apply Forall_cons_iff in Hm as [Hs Hm].
+    destruct (IH r j Hr Hm Hj) as [L N].
+    cbn [fold_right col map]. split.
+    + rewrite length_vzip; lia.
+    + rewrite nth_vzip by lia. rewrite N. reflexivity.
+Qed.
+Lemma fold_ext_length c (g : R -> R -> R) (m : mat) (r : vec) : length r = c -> rect c m ->
+  length (fold_right (vzip g) r m) = c.
+Proof.
+  intros Hr Hm. induction Hm as [|s m Hs Hm IH]; [assumption|]. cbn [fold_right]. rewrite length_vzip; lia.
+Qed.
+Lemma fold_ext_cols c (g : R -> R -> R) (m : mat) (r : vec) : length r = c -> rect c m ->
+  fold_right (vzip g) r m = map (fun j => fold_right g (nth j r 0) (col j m)) (seq 0 c).
+Proof.
+  intros Hr Hm. etransitivity; [apply (list_eq_seq _ c); apply fold_ext_length; assumption|].
+  apply map_ext_in; intros j Hj. apply in_seq in Hj. apply (fold_ext_nth c); (assumption || lia).
+Qed.
+Lemma max0_cols c m : m <> [] -> rect c m -> max0 m = map (fun j => vmax (col j m)) (seq 0 c).
+Proof.
+  intros Hne Hm. destruct m as [|r m]; [congruence|]. apply Forall_cons_iff in Hm as [Hr Hm].
+  unfold max0. rewrite (fold_ext_cols c) by assumption. reflexivity.
+Qed.
+Lemma min0_cols c m : m <> [] -> rect c m -> min0 m = map (fun j => vmin (col j m)) (seq 0 c).
+Proof.
+  intros Hne Hm. destruct m as [|r m]; [congruence|]. apply Forall_cons_iff in Hm as [Hr Hm].
+  unfold min0. rewrite (fold_ext_cols c) by assumption. reflexivity.
+Qed.
+Lemma ptp0_cols c m : m <> [] -> rect c m -> ptp0 m = map (fun j => ptp (col j m)) (seq 0 c).
+Proof.
+  intros Hne Hm. unfold ptp0, vsub. rewrite (max0_cols c), (min0_cols c) by assumption. apply vzip_map_map.
+Qed.
+Lemma norm0_cols k c m : m <> [] -> rect c m -> norm0 k c m = map (fun j => norm1 k (col j m)) (seq 0 c).
+Proof.
+  intros Hne Hm. destruct k; simpl.
+  - apply ptp0_cols; assumption.
+  - apply var0_cols; assumption.
+  - apply mean0_cols; assumption.
+  - unfold q1q3_0, cols. apply map_map.
+Qed.
+Lemma combine_map_map {A B C} (f : A -> B) (g : A -> C) (l : list A) :
+  combine (map f l) (map g l) = map (fun j => (f j, g j)) l.
+Proof. induction l; simpl; [reflexivity | f_equal; assumption]. Qed.
+
+(* the dimensionwise switch on a 2-D / 3-D array = the 1-D metric of every feature column of its rows *)
+Lemma dimwise_columnwise (y p : arr R) (my mp : mat) (c : nat) :
+  shape y = shape p -> rows2 y = Some my -> rows2 p = Some mp -> nfeat y = c ->
+  rect c my -> rect c mp -> my <> [] ->
+  mse true y p = Some (RV (map (fun j => mse1 (col j my) (col j mp)) (seq 0 c))) /\
+  rsquare true y p = Some (RV (map (fun j => rsquare1 (col j my) (col j mp)) (seq 0 c))) /\
+  (forall k, nrmse_parts true k y p =
+             Some (inr (map (fun j => (mse1 (col j my) (col j mp), norm1 k (col j my))) (seq 0 c)))).
+Proof.
+  intros Hs Hy Hp Hc Ry Rp Hne. unfold mse, rsquare, nrmse_parts, reduce.
+  rewrite check_match, Hy, Hp, Hc by assumption. repeat split; cbn [tores].
+  - rewrite mse0_cols by assumption. reflexivity.
+  - rewrite rsquare0_cols by assumption. reflexivity.
+  - intros k. rewrite mse0_cols, (norm0_cols k c) by assumption. rewrite combine_map_map. reflexivity.
+Qed.
+
+(* ---------------------------------------------------------------- effective_spectral_radius: lr W + (1 - lr) I *)
+Lemma unitv_length : forall n i, length (unitv (F:=R) n i) = n.
+Proof. induction n; intros i; simpl; [reflexivity|]. destruct i; simpl; [unfold vzeros; rewrite repeat_length | rewrite IHn]; reflexivity. Qed.
+Lemma unitv_nth : forall n i j, (i < n)%nat -> (j < n)%nat ->
+  nth j (unitv (F:=R) n i) 0 = if Nat.eqb i j then 1 else 0.
+Proof.
+  induction n; intros i j Hi Hj; [lia|]. destruct i, j; simpl; try reflexivity.
+  - unfold vzeros. apply nth_repeat.
+  - apply IHn; lia.
+Qed.
+Lemma nth_mscale (c : R) (A : mat) i : nth i (mscale c A) [] = vscale c (nth i A []).
+Proof. unfold mscale. exact (map_nth (vscale c) A [] i). Qed.
+Lemma eff_matrix_entry (lr : R) (W : mat) n i j : length W = n -> rect n W -> (i < n)%nat -> (j < n)%nat ->
+  mget (eff_matrix lr W) i j = lr * mget W i j + (1 - lr) * (if Nat.eqb i j then 1 else 0).
+Proof.
+  intros HW HR Hi Hj. unfold mget, eff_matrix, madd. rewrite HW.
+  assert (Hrow : length (nth i W []) = n).
+  { unfold rect in HR. rewrite Forall_forall in HR. apply HR. apply nth_In. lia. }
+  change (@nil R) with ((fun p : vec * vec => vadd (fst p) (snd p)) ([], [])) at 1.
+  rewrite map_nth. rewrite combine_nth by (unfold mscale, eye; rewrite !map_length, seq_length; assumption).
+  cbn [fst snd]. rewrite !nth_mscale.
+  unfold eye. rewrite nth_map_seq by assumption.
+  unfold vadd, vscale. rewrite nth_vzip by (rewrite !map_length, ?unitv_length; lia).
+  rewrite (nth_map_R _ _ _ 0) by lia. rewrite (nth_map_R _ _ _ 0) by (rewrite unitv_length; lia).
+  rewrite unitv_nth by assumption. reflexivity.
+Qed.
+
+(* ---------------------------------------------------------------- quantiles: a monotone affine map commutes with the sort *)
+Lemma nleb_aff a b x y : 0 < a -> nleb (aff a b x) (aff a b y) = nleb x y.
+Proof. intros Ha. unfold aff; numR. destruct (Rle_dec (a * x + b) (a * y + b)), (Rle_dec x y); try reflexivity; exfalso; nra. Qed.
+Lemma insert_aff a b x (l : vec) : 0 < a -> insert (aff a b x) (map (aff a b) l) = map (aff a b) (insert x l).
+Proof.
+  intros Ha. induction l as [|y l IH]; [reflexivity|]. cbn [insert map]. rewrite nleb_aff by assumption.
+  destruct (nleb x y); cbn [map]; [reflexivity | f_equal; assumption].
+Qed.
+Lemma isort_aff a b (v : vec) : 0 < a -> isort (map (aff a b) v) = map (aff a b) (isort v).
+Proof.
+  intros Ha. unfold isort. induction v as [|x v IH]; cbn [map fold_right]; [reflexivity|].
+  rewrite IH. apply insert_aff; assumption.
+Qed.
+Lemma insert_length x (l : vec) : length (insert x l) = S (length l).
+Proof. induction l as [|y l IH]; [reflexivity|]. cbn [insert]. destruct (nleb x y); simpl; [reflexivity | rewrite IH; reflexivity]. Qed.
+Lemma isort_length (v : vec) : length (isort v) = length v.
+Proof. unfold isort. induction v as [|x v IH]; [reflexivity|]. cbn [fold_right]. rewrite insert_length, IH. reflexivity. Qed.
+
+Lemma quantile_aff_gen a b (qa qb : nat) (v : vec) : 0 < a -> (qa <= qb)%nat -> (0 < qb)%nat -> v <> [] ->
+  quantile qa qb (map (aff a b) v) = aff a b (quantile qa qb v).
+Proof.
+  intros Ha Hq Hb Hv. unfold quantile. rewrite isort_aff by assumption. rewrite map_length.
+  set (n := length v). assert (Hn : (0 < n)%nat) by (subst n; destruct v; [congruence | simpl; lia]).
+  set (lo := (qa * (n - 1) / qb)%nat).
+  assert (Hlo : (lo <= n - 1)%nat).
+  { apply Nat.div_le_upper_bound; [lia|]. apply Nat.mul_le_mono_r; assumption. }
+  numR. rewrite !(nth_map_R _ _ _ 0) by (rewrite isort_length; fold n; lia).
+  unfold aff. ring.
+Qed.
+Lemma quantile_aff a b (v : vec) : 0 < a -> v <> [] ->
+  quantile 1 4 (map (aff a b) v) = aff a b (quantile 1 4 v) /\
+  quantile 3 4 (map (aff a b) v) = aff a b (quantile 3 4 v).
+Proof. intros Ha Hv. split; apply quantile_aff_gen; (assumption || lia). Qed.
+Lemma q1q3_aff a b (v : vec) : 0 < a -> v <> [] -> q1q3 (map (aff a b) v) = a * q1q3 v.
+Proof. intros Ha Hv. unfold q1q3. destruct (quantile_aff a b v Ha Hv) as [-> ->]. unfold aff; numR; ring. Qed.
+Lemma nrmse_q1q3_aff a b (y p : vec) : 0 < a -> q1q3 y <> 0 ->
+  nrmseR Q1Q3 (map (aff a b) y) (map (aff a b) p) = nrmseR Q1Q3 y p.
+Proof.
+  intros Ha Hn. assert (Hy : y <> []) by (intros ->; apply Hn; unfold q1q3, quantile; simpl; numR; ring).
+  unfold nrmseR, norm1. rewrite rmseR_aff, q1q3_aff, Rabs_right by (assumption || lra). field. split; [assumption|lra].
 Qed.
